@@ -142,6 +142,8 @@ type n09Proxy struct {
 	skipAhead                    int  // ... and the next SYNC was accepted as a resume
 	windowOpen                   int  // replication connections currently inside the vulnerable window
 	sentTwice                    string
+	holdSync                     bool // new replication handshakes wait (no transfer may start during a rotation)
+	inTransfer                   int  // replication connections between SYNC request and end of file transfer
 }
 
 func n09NewProxy(target string, cuts []int64) (*n09Proxy, error) {
@@ -242,6 +244,19 @@ func (p *n09Proxy) serve(c net.Conn) {
 		return
 	}
 	rc := &n09ReplConn{p: p, id: id}
+	p.mu.Lock()
+	for p.holdSync && !p.closed {
+		p.cond.Wait()
+	}
+	p.inTransfer++
+	p.mu.Unlock()
+	transferDone := false
+	endTransfer := func() { // under p.mu
+		if !transferDone {
+			transferDone = true
+			p.inTransfer--
+		}
+	}
 	// follower -> leader: forward untouched, note whether each SYNC asks for a full transfer
 	go func() {
 		fp := &n09F2LParser{rc: rc}
@@ -302,6 +317,9 @@ func (p *n09Proxy) serve(c net.Conn) {
 					cut = true
 				}
 			}
+			if lp.phase == n09PhaseLive {
+				endTransfer()
+			}
 			if cut {
 				p.cutsByPhase[lp.phase]++
 				p.event(id, lp.phase, "CUT after %d bytes of this chunk (%s, mid-frame=%v)", fwd, n09PhaseNames[lp.phase], lp.midFrame())
@@ -323,6 +341,7 @@ func (p *n09Proxy) serve(c net.Conn) {
 	_ = s.Close()
 	_ = c.Close()
 	p.mu.Lock()
+	endTransfer()
 	if lp.inWindow() {
 		p.pendingSkip = true
 		p.windowOpen--
@@ -330,6 +349,13 @@ func (p *n09Proxy) serve(c net.Conn) {
 	}
 	lp.closed = true
 	p.event(id, lp.phase, "replication connection closed")
+	p.mu.Unlock()
+}
+
+func (p *n09Proxy) setHoldSync(on bool) {
+	p.mu.Lock()
+	p.holdSync = on
+	p.cond.Broadcast()
 	p.mu.Unlock()
 }
 
@@ -650,6 +676,7 @@ type n09Case struct {
 	Ring      int       `json:"ring"`
 	RingMax   int       `json:"ringmax"`
 	Followers int       `json:"followers"`
+	NoLoop    bool      `json:"noloop,omitempty"` // hook H1: no wall-clock sweep goroutines, the harness owns the DB clocks
 	Ops       []n09Op   `json:"ops"`
 	Cuts      [][]int64 `json:"cuts"` // per follower: cumulative leader->follower byte offsets of replication traffic
 }
@@ -693,9 +720,11 @@ type n09Info struct {
 	knownCompactedLog                  int
 	excludedEmptyRotation              int
 	excludedEmptyRingJoin              int
+	excludedRotationOverlap            int
 }
 
 type n09Out struct {
+	discarded    string
 	err          error
 	key          string
 	inconclusive string
@@ -722,6 +751,7 @@ type n09Env struct {
 	finalOff map[uint32]uint32
 	info     n09Info
 	noCreateByUpdate bool
+	harnessTainted   string
 	stopNudge chan struct{}
 	nudgeDone chan struct{}
 	mu       sync.Mutex
@@ -747,7 +777,7 @@ func (e *n09Env) report() string {
 }
 
 func n09InstOpts(c *n09Case) vInstOpts {
-	return vInstOpts{DBConcurrent: 2, DBFastKeyCount: 64, AofRingBufferSize: uint(c.Ring), AofRingBufferMaxSize: uint(c.RingMax)}
+	return vInstOpts{DBConcurrent: 2, DBFastKeyCount: 64, AofRingBufferSize: uint(c.Ring), AofRingBufferMaxSize: uint(c.RingMax), NoCheckLoop: c.NoLoop}
 }
 
 func n09NewEnv(c *n09Case) (*n09Env, error) {
@@ -846,6 +876,7 @@ var n09ReplayMode bool
 func n09Known(key string) bool { return !n09ReplayMode && vIsKnown(key) }
 
 const n09KeyCompactedLog = "C09:leader-compacted-log-does-not-reproduce-leader-state"
+const n09KeyTransferVsCompaction = "C09:file-transfer-concurrent-with-compaction-misses-history"
 const n09KeyFirstTwice = "C09:first-record-delivered-twice-when-sync-races-with-empty-ring"
 const n09KeyWedged = "C09:follower-wedged-by-append-file-index-hole"
 const n09KeySkipAhead = "C09:aborted-full-transfer-resumes-at-bound-skipping-history"
@@ -905,6 +936,35 @@ func (e *n09Env) send(op n09Op) {
 // rotate is Admin.commandHandleRewriteAofCommand; before the switch the harness copies the file
 // that is being closed (the background compaction deletes it).
 func (e *n09Env) rotate() {
+	if n09Known(n09KeyTransferVsCompaction) {
+		// known finding: ReplicationServer.sendFiles lists and reads the directory while Aof.rewriteAofFiles is
+		// replacing its files (isRewriting is only set inside the goroutine, the replacement is remove-then-
+		// rename): the transfer is aborted or silently incomplete. Excluded: no transfer overlaps a rotation -
+		// new handshakes are held back by the proxy and transfers in progress are allowed to finish first.
+		for _, s := range e.slots {
+			s.proxy.setHoldSync(true)
+		}
+		defer func() {
+			for _, s := range e.slots {
+				s.proxy.setHoldSync(false)
+			}
+		}()
+		for i := 0; i < 1500; i++ {
+			busy := 0
+			for _, s := range e.slots {
+				s.proxy.mu.Lock()
+				if !s.proxy.stalled {
+					busy += s.proxy.inTransfer
+				}
+				s.proxy.mu.Unlock()
+			}
+			if busy == 0 {
+				break
+			}
+			time.Sleep(2 * time.Millisecond)
+		}
+		e.info.excludedRotationOverlap++
+	}
 	if n09Known(n09KeySkipAhead) {
 		// known finding: a transfer that the leader aborts (its compaction deletes a file sendFiles is about to
 		// read) before the first record leaves the follower at the bound. Excluded as far as the harness can:
@@ -974,6 +1034,9 @@ func (e *n09Env) join(op n09Op) error {
 	} else if s.joined > 0 {
 		e.info.staleJoins++
 	}
+	if n09Known(n09KeyFirstTwice) {
+		n09Drain(e.leader.inst.slock.aof) // nothing of the workload so far is still on its way into the ring
+	}
 	o := n09InstOpts(e.c)
 	o.DataDir = s.dir
 	o.SlaveOf = s.proxy.addr
@@ -1016,8 +1079,24 @@ func (e *n09Env) stop(f int) {
 	node := s.node
 	s.node = nil
 	e.mu.Unlock()
+	// stop the replication client first and make sure it is gone: a follower whose teardown is abandoned
+	// must not keep writing into a directory that the next incarnation is going to use
+	mgr := node.inst.slock.replicationManager
+	if cc := mgr.clientChannel; cc != nil {
+		_ = cc.Close()
+		s.proxy.dropConns()
+		select {
+		case <-cc.closedWaiter:
+		case <-time.After(3 * time.Second):
+			e.harnessTainted = "replication client of a stopped follower did not terminate"
+		}
+	}
 	s.proxy.dropConns()
+	before := atomic.LoadInt64(&vAbandoned)
 	node.close(false)
+	if atomic.LoadInt64(&vAbandoned) != before {
+		e.harnessTainted = "teardown of a stopped follower was abandoned: its directory may still be written to"
+	}
 }
 
 // ---------------------------------------------------------------------------------------------
@@ -1094,6 +1173,14 @@ func (e *n09Env) waitCaughtUp(f int, target [16]byte) string {
 			last = fmt.Sprintf("follower %d has no replication client", f)
 		}
 		polls++
+		if polls%50 == 0 {
+			s.proxy.mu.Lock()
+			skipped := s.proxy.skipAhead > 0
+			s.proxy.mu.Unlock()
+			if skipped && time.Since(deadline.Add(-n09Watchdog)) > 1500*time.Millisecond {
+				return "SKIPPED: " + last
+			}
+		}
 		if polls%100 == 0 && cc != nil {
 			// a follower that can never resynchronise: its own directory has a hole in the append file
 			// indices, so every Aof.Reset / FindAofFiles fails ("append.aof file index error")
@@ -1357,6 +1444,17 @@ func (e *n09Env) collectTruth() error {
 	return nil
 }
 
+func (e *n09Env) truthPayload(fr []byte) bool {
+	for _, recs := range e.truth {
+		for i := range recs {
+			if recs[i].Data != nil && bytes.Equal(recs[i].Data, fr) {
+				return true
+			}
+		}
+	}
+	return false
+}
+
 func (e *n09Env) truthRecord(id n09Id) *n09Rec {
 	recs := e.truth[id.Idx]
 	if id.Off >= 1 && int(id.Off) <= len(recs) && recs[id.Off-1].Id == id {
@@ -1459,7 +1557,7 @@ func (e *n09Env) checkOneFile(f int, dir, name string, exact bool, start *n09Id,
 					usedFrames[string(fr)] = true
 					break
 				}
-				if tolerant && usedFrames[string(fr)] {
+				if tolerant && (usedFrames[string(fr)] || e.truthPayload(fr)) {
 					dups++
 					continue
 				}
@@ -1471,8 +1569,8 @@ func (e *n09Env) checkOneFile(f int, dir, name string, exact bool, start *n09Id,
 		}
 	}
 	for ; fi < len(frames); fi++ {
-		if tolerant && usedFrames[string(frames[fi])] {
-			dups++
+		if tolerant && (usedFrames[string(frames[fi])] || e.truthPayload(frames[fi])) {
+			dups++ // repeated, or the payload of a record whose 64 bytes were lost in the same race
 			continue
 		}
 		return fmt.Sprintf("follower %d %s: .dat holds a payload %x that belongs to no record", f, name, frames[fi]), dups
@@ -1550,6 +1648,9 @@ func (e *n09Env) syncAndCheck(final bool) (key, violation, inconclusive string) 
 	}
 	for _, i := range active {
 		if why := e.waitCaughtUp(i, target); why != "" {
+			if strings.HasPrefix(why, "SKIPPED: ") {
+				return n09KeySkipAhead, fmt.Sprintf("follower %d resumed at the bound of a full transfer that had delivered nothing and does not reach the leader's position: %s", i, why[9:]), ""
+			}
 			if strings.HasPrefix(why, "WEDGED: ") {
 				return n09KeyWedged, fmt.Sprintf("follower %d never converges: %s", i, why[8:]), ""
 			}
@@ -1641,6 +1742,11 @@ func n09RunCluster(c *n09Case) (out n09Out) {
 		out.info.abandoned = e.info.abandoned
 	}()
 	fail := func(key, msg string) {
+		if e.harnessTainted != "" {
+			// not a verdict: the harness itself lost control of an instance
+			out.discarded = e.harnessTainted
+			return
+		}
 		out.key = key
 		out.err = fmt.Errorf("%s\n%s", msg, e.report())
 	}
